@@ -8,8 +8,8 @@ Quick == Tier = "quick"
 MatchAlg(k) == CASE k.kty = "oct" -> "HS256" [] k.kty = "RSA" -> "RS256"
                  [] k.kty = "EC" -> (IF k.bits = 256 THEN "ES256" ELSE IF k.bits = 384 THEN "ES384" ELSE "ES512")
                  [] k.kty = "OKP" -> "EdDSA"
-BaseKeys == {OctKey(32, "a", NONE, NONE), AsymKey("rsa2048a", 0, NONE, NONE)}
-            \cup (IF Quick THEN {} ELSE {AsymKey("p256a", 0, NONE, NONE), AsymKey("p384a", 0, NONE, NONE),
+BaseKeys == {OctKey(32, "a", NONE, NONE), AsymKey("rsa2048a", 0, NONE, NONE), AsymKey("p256a", 0, NONE, NONE)}
+            \cup (IF Quick THEN {} ELSE {AsymKey("p384a", 0, NONE, NONE),
                                         AsymKey("ed25519a", 0, NONE, NONE), OctKey(64, "a", NONE, NONE)})
 KeyVariants == {k : k \in BaseKeys} \cup {[k EXCEPT !.alg = MatchAlg(k)] : k \in BaseKeys}
 
@@ -23,7 +23,7 @@ CkWithCb(k) == { s \o <<CSetCbOp(p)>> : s \in CkSetups(k), p \in Progs(k) } \cup
 
 HdrAlgsFor(k) == {"none", "None", "NONE", MatchAlg(k), NONE, "#null", "#int", "#bool", "#arr", "#obj", "#real", "none ", "", "none#0x", "n"}
 SigsFor(k, h) == { EmptySig, Sig("valid", h, k), [Sig("garbage", "HS256", DummyKey) EXCEPT !.cls = "garbage"] }
-Shapes == {"3seg", "2seg", "4seg", "4segempty"}
+Shapes == {"3seg", "2seg", "4seg", "4segempty", "4segmid", "4segmidempty", "dupsig"}
 TokFor(k, h, sg, sh) == [Tok(h, <<>>, <<>>, sg) EXCEPT !.shape = sh]
 
 \* shapes other than 3 segments only with the plain spellings (the shape dimension is independent of the spelling)
